@@ -265,8 +265,9 @@ class _mark_ignore_name(ast.NodeTransformer):
 
 class _rewrite_captured_vars(ast.NodeTransformer):
     def __init__(self, cv: inspect.ClosureVars, helpers_in_progress: Optional[List[Any]] = None):
-        self._lookup_dict: Dict[str, Any] = dict(cv.nonlocals)
-        self._lookup_dict.update(cv.globals)
+        # A variable of an enclosing function hides a module level variable of the same name
+        self._lookup_dict: Dict[str, Any] = dict(cv.globals)
+        self._lookup_dict.update(cv.nonlocals)
         self._ignore_stack = []
         self._helpers_in_progress: List[Any] = (
             helpers_in_progress if helpers_in_progress is not None else []
